@@ -852,6 +852,9 @@ type evRun struct {
 	c     *Ctx
 	kinds map[string]int
 	n     int
+	// directed sweeps whose programs differ in one value only: the model evaluates every shardMod-th program
+	// (0: every program); the monitors see all of them
+	shardMod int
 }
 
 // runProgram executes one program (context layers, event fields, level, message, finalizer) on the
@@ -908,7 +911,7 @@ func (er *evRun) runProgram(g *gen, label string, layers [][]gfield, evF []gfiel
 	if label != "" {
 		in["directed"] = label
 	}
-	er.check(g, i, in, w, pre, ctx, ev, ctxF, evF, true)
+	er.check(g, i, in, w, pre, ctx, ev, ctxF, evF, er.shardMod == 0 || i%er.shardMod == 0)
 }
 
 // check applies the monitors to what one program wrote (pre / ctx / ev: the logged keys and values in the
@@ -1017,6 +1020,10 @@ func runEvents(c *Ctx) {
 	}
 	// ---- directed: every entry point that ends in a message (entry.go)
 	er.runMessageEntryPoints()
+	// ---- directed: Fields() over every value type its switch names, against the dedicated methods (fieldsweep.go)
+	er.runFieldsSweep()
+	// ---- directed: the marshal globals assigned at run time (marshalglobals.go)
+	er.runMarshalGlobals()
 
 	for i := 0; i < nprog; i++ {
 		r := c.R.Fork()
